@@ -935,6 +935,10 @@ def correspondence_driver(ctx):
                 used = [i for m, i in trace if m == 2]
                 same_call_cache = all(u == made[0] for u in used) if made else not used
                 iters_ok = r[0] != 'ok' or len(r[4]) == len(modes)
+                if r[0] == 'ok':
+                    th, tol_ = r[4], c['kw'].get('tol', 1e-3)
+                    # the stop rule of `drive`: no pass before the last is below tol; the last is, or the budget is exhausted
+                    iters_ok = iters_ok and not np.any(th[:-1] < tol_) and (bool(th[-1] < tol_) or len(th) == c['kw']['max_iter'] + 1)
                 lits.append(f'({"true" if c["conserve"] else "false"}, {"[" + "; ".join(str(m) + "%nat" for m in modes) + "]"}, '
                             f'{"true" if (same_call_cache and iters_ok) else "false"})')
                 metas.append(history_case(x, [c]))
@@ -1098,7 +1102,7 @@ def build_all(ctx):
     properties); each file's theorems are discharged iff its own .vo was produced by this build"""
     import time
     from .common import COQ, theorems_in
-    rels = ['props/C19.v', 'props/C19_state.v', 'props/C19_solver.v']
+    rels = ['props/C19.v', 'props/C19_state.v', 'props/C19_solver.v', 'props/C19_driver.v']
     t0 = time.time() - 1
     for rel in rels[1:]:
         try:
@@ -1121,6 +1125,73 @@ def build_all(ctx):
         if not built and ok:
             ctx.broke(f'build:{rel}', 'not built')
     return all_ok
+
+
+def exact_cells():
+    """FIXED cells of the full-iteration exactness grid"""
+    cells = []
+    for kind in ('uniform', 'random', 'clustered'):
+        for p in (0, 1, 2):
+            for tp_off in (2, 3, 4, 5, 6, 7, 8, None):            # total_points = poly_order + off; None = default fraction
+                for data in ('zero', 'constant', 'degree-p'):
+                    for sym in (False, True):
+                        for thr in (False, True):
+                            cells.append((kind, p, tp_off, data, sym, thr))
+    return cells
+
+
+def oracle_exact_full(ctx, budget):
+    """data EXACTLY on a polynomial of degree <= poly_order (incl. all-zero and constant), DEFAULT tol and max_iter (the
+    full robust iteration), small windows total_points = poly_order+2 .. poly_order+8 and the default fraction,
+    symmetric / asymmetric weighting, threshold mode, uniform / random / clustered x: reproduced at every fitted point;
+    and C19_first_pass_exit observed: a first recorded difference below tol ends the iteration after one pass"""
+    P, U = mods()
+    xcache = {}
+    for ci, (kind, p, tp_off, data, sym, thr) in enumerate(exact_cells()):
+        n = 24
+        if kind not in xcache:
+            xcache[kind] = gen_x(np.random.default_rng({'uniform': 5, 'random': 6, 'clustered': 7}[kind]), n, kind)
+        x = xcache[kind]
+        xs = np.polynomial.polyutils.mapdomain(x, np.array([x[0], x[-1]]), np.array([-1., 1.]))
+        if data == 'zero':
+            y = np.zeros(n)
+        elif data == 'constant':
+            y = np.full(n, 2.5)
+        else:
+            y = np.polynomial.polynomial.polyval(xs, np.array([1.0, -2.0, 3.0][:p + 1]))
+        kw = dict(poly_order=p, symmetric_weights=sym)
+        if tp_off is not None:
+            kw['total_points'] = p + tp_off
+        if thr:
+            kw['use_threshold'] = True
+        if ci % 2:
+            kw['delta'] = 0.0
+        tp = kw.get('total_points', math.ceil(0.2 * n))
+        if tp < p + 1:
+            continue
+        dl = kw.get('delta')
+        dl = 0.01 * float(x[-1] - x[0]) if dl is None else dl
+        cond = local_cond(P, x, tp, p, dl)
+        ctx.case(('exact', ci), nontrivial=data != 'zero', kind=f'exact-full:{kind}:{data}')
+        if not np.isfinite(cond) or cond > 1e8:
+            continue
+        conserve = bool(ci % 3)
+        r = run_loess(x, y, kw, conserve)
+        desc = f'x {kind}, poly_order={p}, total_points={tp}, data {data}, symmetric_weights={sym}, use_threshold={thr}, default tol/max_iter'
+        case = cfg_case({'x': x, 'y': y, 'kw': kw}, {'conserve': conserve})
+        if r[0] != 'ok':
+            ctx.fail('exact-full:raises', f'loess raises {r[1]} ({r[2]}) on exact polynomial data: {desc} (cond {cond:.3g})', case)
+            continue
+        w_, f_, s_ = spec_determine_fits(x, tp, dl)
+        fi = np.asarray(f_)
+        scale = float(np.max(np.abs(y)))
+        err = float(np.max(np.abs(r[1][fi] - y[fi])))
+        tol = 64 * np.finfo(float).eps * cond * scale
+        if not err <= tol:
+            ctx.fail('exact-full:not-reproduced', f'exact polynomial data not reproduced at the fitted points by the full iteration: error {err:.3g} > {tol:.3g}; {desc}', case)
+        th = r[4]
+        if th[0] < 1e-3 and len(th) != 1:
+            ctx.fail('exact-full:first-pass-exit', f'first recorded difference {th[0]:.3g} is below tol=1e-3 but the iteration ran {len(th)} passes; {desc}', case)
 
 
 def stage(ctx, name, fn, *a):
@@ -1152,6 +1223,7 @@ def run(ctx):
     ctx.gate()
     ctx.translate(['GenLoessState'])
     ctx.translate(['GenLoessSolver'])
+    ctx.translate(['GenLoessDriver'])
     ok = build_all(ctx)
     stage(ctx, 'correspondence_fits', correspondence_fits)
     stage(ctx, 'correspondence_fill', correspondence_fill)
@@ -1160,6 +1232,7 @@ def run(ctx):
     budget = 1 if (ok and not ctx.broken) else 4
     stage(ctx, 'oracle_strategy_grid', oracle_strategy_grid, budget)
     stage(ctx, 'oracle_magnitude', oracle_magnitude, budget)
+    stage(ctx, 'oracle_exact_full', oracle_exact_full, budget)
     stage(ctx, 'oracle_fits', oracle_fits, budget)
     stage(ctx, 'oracle_loess', oracle_loess, budget)
     stage(ctx, 'oracle_poly', oracle_poly, budget)
@@ -1199,6 +1272,22 @@ def replay(rep):
         if 'weights' in kw and kw['weights'] is not None:
             kw['weights'] = np.array(kw['weights'])
         rt, rf = run_loess(x, y, kw, True), run_loess(x, y, kw, False)
+        if str(rep.get('key', '')).startswith('exact-full:'):
+            n = len(x)
+            tp = kw.get('total_points', math.ceil(0.2 * n))
+            dl = kw.get('delta')
+            dl = 0.01 * float(x[-1] - x[0]) if dl is None else dl
+            cond = local_cond(P, x, tp, kw['poly_order'], dl)
+            r = run_loess(x, y, kw, bool(case.get('conserve', True)))
+            if r[0] != 'ok':
+                print('loess raises', r[1:])
+                return 1
+            w_, f_, s_ = spec_determine_fits(x, tp, dl)
+            fi = np.asarray(f_)
+            err = float(np.max(np.abs(r[1][fi] - y[fi])))
+            tol = 64 * np.finfo(float).eps * cond * float(np.max(np.abs(y)))
+            print(f'error at the fitted points {err:.3g}, tolerance {tol:.3g}; tol_history {r[4].tolist()}')
+            return 0 if (err <= tol and not (r[4][0] < 1e-3 and len(r[4]) != 1)) else 1
         if str(rep.get('key', '')).startswith('magnitude:'):
             cond = local_cond(P, x, kw['total_points'], kw['poly_order'], kw['delta'], kw.get('weights'))
             if 'brute' in rep['key']:
